@@ -3,6 +3,7 @@
 //! The harness contains no oracle: it executes operation sequences on the real code and
 //! records what came back as NDJSON; every comparison that decides a property is made by
 //! TLC against a TLA+ definition (see /verif/specs).
+mod atomic;
 mod codec;
 mod deque;
 mod footprint;
@@ -23,6 +24,7 @@ fn main() {
     match args[1].as_str() {
         "deque" => deque::drive_deque(&args[2], &args[3]),
         "codec" => codec::drive_codec(&args[2], &args[3]),
+        "atomic" => atomic::drive_atomic(&args[2], &args[3]),
         "vt" => vt::drive_vt(&args[2], &args[3]),
         "tlv" => tlv::drive_tlv(&args[2], &args[3]),
         "readn" => readn::drive_readn(&args[2], &args[3]),
